@@ -143,7 +143,7 @@ func NewBuilderCase(g *Gen, id int) *Case {
 			calls = append(calls, fmt.Sprintf("CTestFunc %d (ut %s) %s", t.ID, coqPred(t.User), co))
 			apply = append(apply, func(s *z.StringSchema[string]) { s.TestFunc(userTest(rec, t, "test"), o...) })
 			applyI = append(applyI, func(s any) { callFluent(s, "TestFunc", []any{userTest(rec, t, "test")}, o) })
-		case c < 75:
+		case c < 73:
 			o, co := g.bopts()
 			switch forcedOpts {
 			case 0:
@@ -156,17 +156,17 @@ func NewBuilderCase(g *Gen, id int) *Case {
 			calls = append(calls, "CRequired "+co)
 			apply = append(apply, func(s *z.StringSchema[string]) { s.Required(o...) })
 			applyI = append(applyI, func(s any) { callFluent(s, "Required", nil, o) })
-		case c < 81:
+		case c < 78:
 			calls = append(calls, "COptional")
 			apply = append(apply, func(s *z.StringSchema[string]) { s.Optional() })
 			applyI = append(applyI, func(s any) { callFluent(s, "Optional", nil, nil) })
-		case c < 88:
+		case c < 84:
 			l := g.leaf(node.Kind)
 			calls = append(calls, "CDefault "+CoqLeaf(l))
 			node.ExtraStrs = append(node.ExtraStrs, l.S)
 			apply = append(apply, func(s *z.StringSchema[string]) { s.Default(l.S) })
 			applyI = append(applyI, func(s any) { callFluent(s, "Default", []any{leafGo(l, node.Kind)}, nil) })
-		case c < 95:
+		case c < 90:
 			l := g.leaf(node.Kind)
 			calls = append(calls, "CCatch "+CoqLeaf(l))
 			node.ExtraStrs = append(node.ExtraStrs, l.S)
@@ -178,7 +178,7 @@ func NewBuilderCase(g *Gen, id int) *Case {
 				p.Op = Pick(r, []string{"upper", "append"})
 				p.S = "!"
 			}
-			if r.P(30) {
+			if r.P(45) {
 				// a failing transform: its issue is not the issue of any test of the chain
 				p.Op, p.S = "err", "boom"
 			}
